@@ -396,3 +396,92 @@ def build_pet(pid, tier):
                             bounds='%d terminated sector(s) in one queue entry, %d vesting entries; CUTS: pop_early_terminations, sector loading, fee formulas (contracts in obligations/miner_cron.py); sends succeed' % (n, nv),
                             max_paths=200000, wall_s=300 if tier == 'quick' else 1200))
     return O
+
+
+# ---- pre_commit_sector_batch (inner): deposit ledger, fee-debt gate, cron activation -------------------------------------
+# CUTS (declared): request_current_epoch_block_reward / request_current_total_power (typed answers), verify_deals (typed
+# answer with one entry per sector), pre_commit_deposit_for_power -> arbitrary amount >= 0 (the same for every sector of
+# the batch), allocate_sector_numbers / put_precommitted_sectors (captured) / add_pre_commit_clean_ups -> Ok.
+
+def run_precommit(n, nvest=0):
+    def run(E):
+        rt, rtref = new_rt(E)
+        pre = mk_miner_state(E, nvest)
+        rt.state = pre['st']
+        E.ctx.assume(rt.balance >= pre['pcd'] + pre['lf'] + pre['ip'])
+        E.ctx.assume(z3.And(rt.epoch >= 0, rt.epoch < 2**40))
+        E.ctx.assume(z3.Not(C13.bz(C13.view(E, pre['info'])['pw_some'])))
+        env = E.ctx.env
+        env['balance0'] = rt.balance
+        ST = SF()
+        env['cron_active0'] = fget(E, pre['st'], ST['deadline_cron_active'], 'bool')
+        E.ctx.env['lazy_vec_lens'] = [0, 1]
+        lz = lambda nm, ty: (lambda E2, c: ok(LazyV(nm, ty), c.dest_ty))
+        E.cuts['request_current_epoch_block_reward'] = lz('epoch_reward', 'fil_actors_runtime::builtin::reward::ThisEpochRewardReturn')
+        E.cuts['request_current_total_power'] = lz('power_total', 'ext::power::CurrentTotalPowerReturn')
+        secs = [LazyV('precommit%d' % i, 'types::SectorPreCommitInfoInner') for i in range(n)]
+        E.cuts['verify_deals'] = lambda E2, c: ok(StructV('ext::market::VerifyDealsForActivationReturn', {0: VecV([none('Option<Cid>') for _ in range(n)], 'Vec<Option<Cid>>')}), c.dest_ty)
+        dep = z3.Int('deposit_per_sector')
+        E.ctx.assume(dep >= 0)
+        env['dep'] = dep
+        for pre_ in ('', 'monies::', 'policy::'):
+            E.cuts[pre_ + 'pre_commit_deposit_for_power'] = lambda E2, c: BigV(dep)
+        E.cuts['State::allocate_sector_numbers'] = lambda E2, c: ok(UNIT, c.dest_ty)
+        captured = env.setdefault('precommits', [])
+
+        def cut_put(E2, c):
+            v = E2.deref(c.args[2])
+            captured.extend([E2.deref(x) for x in v.items])
+            return ok(UNIT, c.dest_ty)
+        E.cuts['State::put_precommitted_sectors'] = cut_put
+        E.cuts['State::add_pre_commit_clean_ups'] = lambda E2, c: ok(UNIT, c.dest_ty)
+        from .miner_money import install_bib_cut
+        install_bib_cut(E)
+        rt.send_hook = lambda E2, rt2, rec, nm: ('ok', None)
+        env['n'] = n
+        fn = find_fn(E, MINER, 'pre_commit_sector_batch_inner')
+        return E.run_function(fn, [rtref, VecV(secs, 'Vec<SectorPreCommitInfoInner>')]), rt
+    return run
+
+
+def props_precommit(E, res):
+    from .miner_money import bib_prop
+    env = res.ctx.env
+    rt, pre = env['rt'], env['pre']
+    ctx = res.ctx
+    if res.kind != 'return':
+        return [tagged('ALL', 'no panic (%s)' % str(res.info)[:60], False)]
+    if is_err(res.value):
+        return [bib_prop(res)]
+    ST = SF()
+    PC = Fields('actors/miner/src/types.rs', 'SectorPreCommitOnChainInfo')
+    led = ledgers(E, rt.state)
+    n = env['n']
+    total = env['dep'] * n
+    burns, pledge, others = classify_sends(rt, ctx)
+    burnt = sum(s.value for s in burns) if burns else 0
+    caps = env.get('precommits', [])
+    P = [tagged('C03', 'one pre-commitment is stored per sector of the batch', len(caps) == n),
+         tagged('C03', 'the pre-commit deposit total grows by exactly the deposits recorded with the new pre-commitments',
+                z3.And(led['pcd'] == pre['pcd'] + total, (sum(big(E, fget(E, c_, PC['pre_commit_deposit'], TOKEN)) for c_ in caps) if caps else 0) == total)),
+         tagged('C15', 'a pre-commit goes through only with the fee debt repaid in full (burnt)', z3.And(led['fd'] == 0, burnt == pre['fd'])),
+         tagged('C01', 'the deposit comes out of funds that are free after the debt is repaid: the miner stays solvent', solvency(rt, led)),
+         tagged('C03', 'pledge and vesting ledgers are untouched by a pre-commit', z3.And(led['ip'] == pre['ip'], led['lf'] == pre['lf']))]
+    for s in others:
+        P.append(tagged('C01', 'only the burn carries value', s.value == 0))
+    active1 = fget(E, rt.state, ST['deadline_cron_active'], 'bool')
+    a0 = env['cron_active0']
+    a0 = a0 if is_sym(a0) else z3.BoolVal(bool(a0))
+    enrol = [s for s in others if implied(ctx, b_and(s.to.proto == 0, s.to.key == POWER, zv(s.method) == ENROLL_CRON))]
+    P.append(tagged('C05', 'after a pre-commit the proving-deadline cron is active', active1 if is_sym(active1) else bool(active1)))
+    P.append(tagged('C05', 'the callback is enrolled exactly when the cron was not active before (never a second one)', z3.BoolVal(len(enrol) == 1) == z3.Not(a0)))
+    return P
+
+
+def build_precommit(pid, tier):
+    wrap = lambda f: (lambda E, res: for_property(pid, f(E, res)))
+    return [Obligation('miner.pre_commit_sector_batch[sectors=%d]' % n, run_precommit(n), wrap(props_precommit),
+                       descr='pre-commit: fee debt repaid in full first, deposits recorded = deposit total increase, solvent, pledge/vesting untouched, cron activated (one callback enrolled iff it was inactive)',
+                       bounds='%d sector(s); CUTS: reward/power queries, verify_deals, pre_commit_deposit_for_power (arbitrary amount), allocate_sector_numbers, put_precommitted_sectors (captured), add_pre_commit_clean_ups; sends succeed' % n,
+                       max_paths=400000, wall_s=400 if tier == 'quick' else 1500)
+            for n in ([1] if tier == 'quick' else [1, 2])]
